@@ -130,10 +130,10 @@ fn only_after_delivery(reject: bool) {
 }
 th!(c13_q_requests_only_after_delivery, 14, { only_after_delivery(false) });
 //# funcs=RecvTransaction::process_pdu(EoF),finalize_receive,finalize_file,handle_fault; bound=as above, checksum matches but the filestore refuses the destination: the request is not executed, FileStoreRejection recorded (> 10 min); stubs=S1,S2,S3,S5
-th!(c13_t_requests_not_after_rejection, 14, { only_after_delivery(true) });
+th!(c13_x_requests_not_after_rejection, 14, { only_after_delivery(true) });
 
 //# funcs=SendTransaction::process_pdu(Finished); bound=Finished with 0..=2 responses, any codes; the sending user's indication carries them; stubs=S1,S2,S3
-th!(#[kani::stub(<std::hash::DefaultHasher as std::hash::Hasher>::finish, crate::c07::hasher_finish_stub)] c13_t_sender_reports_responses, 5, {
+th!(#[kani::stub(<std::hash::DefaultHasher as std::hash::Hasher>::finish, crate::c07::hasher_finish_stub)] c13_x_sender_reports_responses, 5, {
     let ch = chans();
     verif::set_now(Duration::from_secs(NOW));
     let mut p = send_parts(config(A), metadata(false, 0, false, ChecksumType::Modular, requests(2)), &ch);
